@@ -24,6 +24,8 @@ def texts():
     t["err"] = "function boom( {\n"
     # an error message that continues on a line starting with "at"
     t["atmsg"] = "function boom(a, b) {\n  const s = a + b;\n  throw new Error('boom ' + s + '\\nat home\\n    at all');\n}\n"
+    # a line of the program (inside a template literal) that starts like a source-map reference
+    t["marker"] = "function boom(a, b) {\n  const s = a + `\n//# sourceMappingURL=${b}`;\n  throw new Error('m' + s);\n}\n"
     # the throw site is on the very first line of the original
     t["oneline"] = "function boom(a, b) { const s = a + b; throw new Error('one ' + s); }\n"
     # the only link between the stack and the rewritten file is an eval origin: the function comes out of an eval
@@ -42,8 +44,8 @@ def texts():
 
 
 CLASSES = {"modA": "modified", "modB": "modified", "plain": "notmodified", "err": "error", "chain": "modified", "evalv": "modified",
-           "bomplain": "notmodified", "bommod": "modified", "oneline": "modified", "evalret": "modified", "atmsg": "modified"}
-THROW_LINE = {"modA": 5, "modB": 9, "plain": 26, "chain": 4 + 100, "evalv": 5, "bomplain": 26, "bommod": 5, "oneline": 1, "evalret": 5, "atmsg": 3}
+           "bomplain": "notmodified", "bommod": "modified", "oneline": "modified", "evalret": "modified", "atmsg": "modified", "marker": "modified"}
+THROW_LINE = {"modA": 5, "modB": 9, "plain": 26, "chain": 4 + 100, "evalv": 5, "bomplain": 26, "bommod": 5, "oneline": 1, "evalret": 5, "atmsg": 3, "marker": 4}
 
 
 def expected_lines(file):
@@ -166,6 +168,10 @@ def run(seed, tier, extra_cases=None, use_cache=True):
         return ps
     n_probe_hists = 0
     if extra_cases is None:
+        # more than a thousand other files rewritten between a rewrite and the error thrown in the file
+        hists.append([{"op": "rewrite", "file": "f1", "version": "modA"}, {"op": "rewrite", "file": "f2", "version": "chain"},
+                      {"op": "bulk", "file": "f2", "version": "modA", "n": 1100},
+                      {"op": "throw", "file": "f1", "version": "modA"}, {"op": "throw", "file": "f2", "version": "chain"}])
         pool = probe_versions + ["modA", "modB", "chain", "plain", "err", "bommod"]
         for i in range(60 if tier == "quick" else 1200):
             h, last = [], {}
@@ -227,7 +233,7 @@ def run(seed, tier, extra_cases=None, use_cache=True):
     jobs = [{"id": "setup", "op": "setup", "repo": vlib.REPO, "table": table, "texts": tx, "config": CFG}]
     disk_toks = {}
     for hi, h in enumerate(hists):
-        steps = [{"op": s["op"], "file": FILES[s["file"]], "version": s.get("version", ""), "positions": s.get("positions", [])} for s in h]
+        steps = [{"op": s["op"], "file": FILES[s["file"]], "version": s.get("version", ""), "positions": s.get("positions", []), "n": s.get("n", 0)} for s in h]
         if hi % 10 == 0:
             for kind, f, ln, ep, el in originals:
                 steps.append({"op": "original", "file": f, "line": ln, "col": 1, "kind": kind, "exp_path": ep, "exp_line": el})
@@ -287,7 +293,8 @@ def run(seed, tier, extra_cases=None, use_cache=True):
                    "status": str(e.get("status", "")), "same_text": bool(e.get("same_text")), "has_trailer": bool(e.get("has_trailer")),
                    "fresh_same": bool(e.get("fresh_same")), "fresh_diff": str(e.get("fresh_diff", "")),
                    "has_hook": bool(e.get("has_hook")), "frames": [], "res_path": "", "res_line": 0, "exp_path": "", "exp_line": 0,
-                   "kind": "", "line": 0, "col": 0, "res_col": 0, "toks": [], "probes": []}
+                   "kind": "", "line": 0, "col": 0, "res_col": 0, "toks": [], "probes": [],
+                   "cfg_same": bool(e.get("cfg_same", True)), "cfg_got": str(e.get("cfg_got", ""))}
             if e["op"] == "probe":
                 rec["probes"] = [{"l": int(q[0]), "c": int(q[1]), "path": str(q[2]), "line": int(q[3] or 0), "col": int(q[4] or 0)}
                                  for q in e.get("results", [])]
